@@ -5,13 +5,20 @@ import GdVerif.Run.Gs1
 import GdVerif.Run.GenGs1
 import GdVerif.Run.Gs2
 import GdVerif.Run.GenGs2
+import GdVerif.Run.Master
+import GdVerif.Run.Settings
+import GdVerif.Run.Views
+import GdVerif.Run.Games
+import GdVerif.Run.IdCheck
+import GdVerif.Run.Quake
+import GdVerif.Run.GenQuake
 /-
   gdmodel: the model behind a line protocol.
     gdmodel run        : reads `<id> <entry> <args…>` lines on stdin, prints `<id> <outcome>`
 -/
 open Gd Gd.Run
 
-def allEntries : List (String × (List String → String)) := readerEntries ++ valveEntries ++ gs1Entries ++ gs2Entries
+def allEntries : List (String × (List String → String)) := readerEntries ++ valveEntries ++ masterEntries ++ settingsEntries ++ viewEntries ++ gameEntries ++ idCheckEntries ++ quakeEntries ++ gs1Entries ++ gs2Entries
 
 def runLine (line : String) : String :=
   match line.trimAscii.toString.splitOn " " with
@@ -41,10 +48,17 @@ def main (args : List String) : IO UInt32 := do
         | "valve" => genValve seed n
         | "gs1" => genGs1 seed n
         | "gs2" => genGs2 seed n
+        | "quake" => genQuake seed n
         | _ => []
       for l in lines do IO.println l
       return 0
     | _, _ => return 2
+  | ["gen", "valvefor", seed, n, eng, g] =>
+    match seed.toNat?, n.toNat?, parseEngine eng, parseGather g with
+    | some seed, some n, some eng, some g =>
+      for l in genValveWith (some (eng, g)) seed n do IO.println l
+      return 0
+    | _, _, _, _ => return 2
   | _ =>
     IO.eprintln "usage: gdmodel run | gen <suite> <seed> <n>"
     return 2
